@@ -1112,6 +1112,15 @@ class ProgGen:
 			f'\tdef mg{k}0(self) -> {tv}:', f'\t\treturn self.g{k}0', '',
 			f'\tdef mg{k}1(self, q1: {tv}) -> list[{tv}]:', f'\t\tself.g{k}1.append(q1)', f'\t\treturn self.g{k}1', '',
 			f'\tdef mg{k}2(self, q1: Callable[[{tv}], int]) -> int:', f'\t\treturn q1(self.g{k}0) + 1', '']
+		if self.chance(0.5) and self.on('generic-forward-ref'):
+			# signatures that instantiate the generic class again, the second time with a class of this module that is declared
+			# later and named through a string forward reference (declaration order: outside C01's domain)
+			self.class_tags = getattr(self, 'class_tags', set()) | {'generic-forward-ref'}
+			a1, a2, z = self.fresh('a'), self.fresh('a'), f'z{k}'
+			self.lines += [f'def wg{k}({a1}: int) -> {g}[int]:', f'\treturn {g}({a1})', '',
+				f"def wl{k}({a2}: int) -> '{g}[L{k}]':", f'\treturn {g}(L{k}({a2}))', '',
+				f"def wd{k}({a2}: int) -> 'dict[str, {g}[{g}[L{k}]]]':", f"\treturn {{'k': {g}({g}(L{k}({a2})))}}", '',
+				f'class L{k}:', f'\t{z}: int', '', f'\tdef __init__(self, {z}: int) -> None:', f'\t\tself.{z} = {z}', '']
 		return g
 
 	def gen_generic_func(self, g: str) -> None:
